@@ -969,9 +969,11 @@ class Interp:
         item = node.items[0]
         call = item.context_expr
         if not isinstance(call, ast.Call):
-            raise OutsideSubset("with: not a call")
+            return self._native_with(self.eval(call, frame), item, node, frame)
         fn = self.eval(call.func, frame)
         args, kwargs = self.eval_args(call, frame)
+        if getattr(self, "native_context_managers", False) and not (getattr(fn, "__wrapped__", None) is not None and self.is_repo(getattr(fn, "__wrapped__")))                 and not isinstance(fn, BoundSym) and not (inspect.ismethod(fn) and getattr(fn.__func__, "__wrapped__", None) is not None):
+            return self._native_with(self.call(fn, args, kwargs), item, node, frame)
         under = getattr(fn, "__wrapped__", None)
         recv = None
         if inspect.ismethod(fn):
@@ -997,6 +999,21 @@ class Interp:
             self.assign(item.optional_vars, val, frame)
         self.exec_block(node.body, frame)
         self.exec_block(gnode.body[k + 1:], cm_frame)
+
+    def _native_with(self, cm, item, node, frame):
+        """`with` on a concrete object of a trusted model (never a symbolic value): the protocol is run natively."""
+        if has_sym(cm) or not (hasattr(cm, "__enter__") and hasattr(cm, "__exit__")):
+            raise OutsideSubset("with: not a concrete context manager")
+        val = cm.__enter__()
+        if item.optional_vars is not None:
+            self.assign(item.optional_vars, val, frame)
+        try:
+            self.exec_block(node.body, frame)
+        except PyRaise as e:
+            if not cm.__exit__(type(e.value), e.value, None):
+                raise
+            return
+        cm.__exit__(None, None, None)
 
     def _bind_only(self, f, args, kwargs):
         """Bind parameters like call_ast_function but return the frame instead of running."""
